@@ -45,12 +45,10 @@ func checkVersionedLeaves(c *props.Ctx, rep reporter, leaves []leaf) {
 	if tn, ok := nsp.Pkg.Scope().Lookup("VersionData").(*types.TypeName); ok {
 		named := tn.Type().(*types.Named)
 		incr = methodOf(named, "Increment")
-		if st, ok := named.Underlying().(*types.Struct); ok {
-			for i := 0; i < st.NumFields(); i++ {
-				if st.Field(i).Name() == "version" {
-					vdVersion = st.Field(i)
-				}
-			}
+		// the counter is resolved by role: the field Increment() adds one to, else the field Version() returns
+		vdVersion = incrementedIn(nci.Body[incr])
+		if vdVersion == nil {
+			vdVersion = counterOf(p.SSA, methodOf(named, "Version"))
 		}
 	}
 	if incr == nil || vdVersion == nil || nci.Body[incr] == nil {
@@ -123,10 +121,26 @@ func checkVersionedLeaves(c *props.Ctx, rep reporter, leaves []leaf) {
 			c.R.Failf("anchor methods %s.{%s,Value,State,Version} not all found", key, lf.mutator)
 			continue
 		}
-		vobj, _, _ := types.LookupFieldOrMethod(named, true, named.Obj().Pkg(), "version")
-		version, _ := vobj.(*types.Var)
+		// the version counter is resolved by role: the field the exported Version() returns
+		var version *types.Var
+		{
+			// the field a method of the type increments, else the field Version() returns
+			c := map[*types.Var]bool{}
+			for i := 0; i < named.NumMethods(); i++ {
+				if fv := incrementedIn(ci.Body[named.Method(i).Origin()]); fv != nil {
+					c[fv.Origin()] = true
+				}
+			}
+			if len(c) == 1 {
+				for f := range c {
+					version = f
+				}
+			} else {
+				version = counterOf(p.SSA, getter)
+			}
+		}
 		if version == nil {
-			c.R.Failf("anchor field %s.version not found", key)
+			c.R.Failf("anchor: the version counter of %s (the field Version() returns) cannot be resolved uniquely", key)
 			continue
 		}
 		st, _ := named.Underlying().(*types.Struct)
@@ -533,4 +547,44 @@ func derivesC11(v ssa.Value, pred func(ssa.Value) bool) bool {
 		return false
 	}
 	return walk(v)
+}
+
+// counterOf: the single field every return of the getter loads.
+func counterOf(prog *ssa.Program, getter *types.Func) *types.Var {
+	b := bodyOf(prog, getter)
+	if b == nil {
+		return nil
+	}
+	var out *types.Var
+	for _, s := range flow.ReturnSites(b, 0) {
+		fv, _ := flow.LoadedField(s.Val)
+		if fv == nil || (out != nil && !sameField(out, fv)) {
+			return nil
+		}
+		out = fv
+	}
+	return out
+}
+
+// incrementedIn: the single field fn increments (f = f + 1), or nil.
+func incrementedIn(fn *ssa.Function) *types.Var {
+	if fn == nil {
+		return nil
+	}
+	var out *types.Var
+	many := false
+	ssau.AllInstrs(fn, func(in ssa.Instruction) {
+		if st, ok := in.(*ssa.Store); ok && !flow.IsFreshBase(st.Addr) {
+			if fv, _ := flow.FieldBase(st.Addr); fv != nil && isIncrementOf(st.Val, fv) {
+				if out != nil && !sameField(out, fv) {
+					many = true
+				}
+				out = fv
+			}
+		}
+	})
+	if many {
+		return nil
+	}
+	return out
 }
